@@ -71,7 +71,7 @@ def build_exchange(cfg: dict, pj: Proj, max_concurrent: int = 1):
     d = bs.backtesting_dispatcher(max_concurrent=max_concurrent)
     if cfg["feeMode"] == "pct":
         # min fee is given in quote coins of the model; under lifting quote coins scale with the quote symbol
-        qsyms = {p["q"] for p in cfg["pairs"]}
+        qsyms = {p["q"] for k, p in enumerate(cfg["pairs"], start=1) if k != cfg.get("borrowOnly")}   # pairs that are traded
         assert len(qsyms) == 1 or cfg["minFeeN"] == 0, "a minimum fee needs a single quote symbol"
         q = next(iter(qsyms))
         fee = fees.Percentage(Decimal(cfg["feeN"]) * 100 / Decimal(cfg["feeD"]),
